@@ -51,6 +51,13 @@ Runtime side (this file), on datasets on which the whole workflow succeeds:
     success) must agree with how the trace shows the `with` block was left
     (Model.Txn ExitExn discards, ExitOk publishes); the model's outcome and SQL
     trace are compared as in (b).
+(b''') repeated attempts: on every dataset that HAS a step, the same command with other
+    valid-looking arguments (another level step, curvature, thresholds, reference level) must be
+    refused and change nothing - on records below / above / across zero (for records off zero the
+    level numbers of two grids are disjoint, so only the singleton zeta_grid refuses).
+(L) large level grids (oracle only, nothing sent to Coq): set-zeta-grid on > 10000 levels
+    (thorough > 20000, > 32768, > 65536): shape, faults around the round row numbers at which
+    software cuts its work, SIGKILLs beyond row 10000, kernel kills in the last pages written.
 (c) histories: all orders of {classify, set-zeta-grid, set-curvature} and of
     {rise, recession}, with failed attempts (injected faults of every kind, and
     natural failures such as re-running a completed step or running rise before
@@ -298,7 +305,7 @@ def diff_tables(a, b):
     return sorted(t for t in set(a) | set(b) if a.get(t) != b.get(t))
 
 
-def one_fault(w, step, pre_file, pre, post, full_events, k, mode, out, case, coq, point):
+def one_fault(w, step, pre_file, pre, post, full_events, k, mode, out, case, coq, point, note=''):
     db = w.fresh(pre_file)
     tr, exc = T.run_cli(w.argv(step, db), at=k, mode=mode, fast=True)
     got = D.dump(db)
@@ -311,14 +318,14 @@ def one_fault(w, step, pre_file, pre, post, full_events, k, mode, out, case, coq
         out.violation('corr', 'fault point %d of `%s` was not reached in the faulted run (non-deterministic trace?)'
                       % (k, step), case=c)
     if oc == 'OMixed':
-        out.violation('oracle', 'after a %s fault at point %d (%s %s) of `%s` the dataset is neither its previous '
+        out.violation('oracle', 'after a %s fault at point %d (%s %s) of `%s`%s the dataset is neither its previous '
                       'content nor the complete result: tables differing from before: %s; from the complete '
-                      'result: %s' % (mode, k, point[0], point[1], step, diff_tables(got, pre),
+                      'result: %s' % (mode, k, point[0], point[1], step, note, diff_tables(got, pre),
                                       diff_tables(got, post)), case=c)
     if oc == 'OPre' and exc is not None:
         out.nontriv(('fault', w.tag, step, k, mode))
     try:
-        if coq_wanted(coq, step, full_events, out):
+        if coq is not None and coq_wanted(coq, step, full_events, out):
             coq['txn'].append(('(%s, %s, %s, %s)' % (cevs(full_events), cevs(tr.events),
                                                    'None' if (mode == 'interrupt' or 'sample' in w.rec)
                                                    else '(Some %s)' % csql(tr.sql), oc),
@@ -331,9 +338,10 @@ def one_fault(w, step, pre_file, pre, post, full_events, k, mode, out, case, coq
     tr2, exc2 = T.run_cli(w.argv(step, db), fast=True)
     again = D.dump(db)
     if again != post:
-        out.violation('oracle', 'after a %s fault at point %d (%s) of `%s` (outcome %s) running the step again '
+        out.violation('oracle', 'after a %s fault at point %d (%s) of `%s`%s (outcome %s) running the step again '
                       'does not give the fault-free result: second run %s, tables differing: %s'
-                      % (mode, k, point[0], step, oc, 'raised %s' % type(exc2).__name__ if exc2 else 'succeeded',
+                      % (mode, k, point[0], step, note, oc,
+                         'raised %s: %s' % (type(exc2).__name__, str(exc2)[:80]) if exc2 else 'succeeded',
                          diff_tables(again, post)), case=c)
     elif oc == 'OPre' and exc2 is not None:
         out.violation('oracle', 'after a %s fault at point %d of `%s` the second run raised %s: %s although the '
@@ -395,7 +403,7 @@ def check_kills(w, jobs, dumps, events, out, case, coq, arng=None):
                           'content nor the complete result: differs from before in %s, from the result in %s'
                           % (where, diff_tables(got, pre), diff_tables(got, post)), case=c)
         # model: the events of the fault-free run up to the point, then nothing
-        att = events_before_point(events[step], k)
+        att = events_before_point(events[step], k) if coq is not None else None
         if att is not None and coq_wanted(coq, step, events[step][0], out):
             try:
                 lit = '(%s, %s, None, %s)' % (cevs(events[step][0]), cevs(att), oc)
@@ -716,11 +724,14 @@ def one_natural(w, named, dumps, traces, step, state, flag, value, out, case, co
     c = dict(case, level='natural', step=step, state=state, variant=[flag, value])
     shown = ' '.join(['spowtd'] + [a if a != db else 'DB' for a in argv])
     if not failed_cmd(tr, exc):
-        # accepted: another (valid) step, not a failed attempt.  Only the exit kind is judged.
+        # accepted: another (valid) step, not a failed attempt.  The exit kind is judged - and, when the
+        # step had ALREADY been run on this dataset, the acceptance itself (see accepted_again)
         out.count('natural:accepted:%s' % step)
         pr = exit_kind_problem(tr, exc)
         if pr is not None:
             out.violation('oracle', '`%s` on the dataset %s: %s' % (shown, state_name(state), pr), case=c)
+        if step in done:
+            accepted_again(w, named, dumps, step, state, argv, db, got, shown, out, c, coq)
         os.remove(db)
         return
     how = 'SystemExit' if isinstance(exc, SystemExit) else type(exc).__name__ if exc is not None else 'status'
@@ -784,6 +795,129 @@ def one_natural(w, named, dumps, traces, step, state, flag, value, out, case, co
     os.remove(db)
 
 
+def accepted_again(w, named, dumps, step, state, argv, db, got, shown, out, c, coq):
+    """A command of a step that had already been run on the dataset was ACCEPTED.  A second run
+    of a step has to fail and change nothing (singleton tables / primary keys: the dataset holds
+    the result of ONE run of each step).  Reported with what the dataset holds now: unchanged,
+    the complete result of the new command (the old result replaced), or a blend of two runs."""
+    src, before, done = named[state]
+    i = STEPS.index(step)
+    out.count('natural:accepted-although-done:%s' % step)
+    if got == before:
+        what = 'the dataset is unchanged'
+    else:
+        what = 'tables %s changed' % diff_tables(got, before)
+        if state == str(i + 1):
+            alt = w.fresh(named[str(i)][0])
+            tr_a, exc_a = T.run_cli([a if a != db else alt for a in argv], fast=True)
+            alone = D.dump(alt)
+            os.remove(alt)
+            what += ('; the dataset now holds neither its previous content nor what this command gives on the dataset '
+                     'without the earlier run (tables %s differ from that): a BLEND of two runs of the step'
+                     % diff_tables(got, alone) if failed_cmd(tr_a, exc_a) or got != alone else
+                     '; the earlier result was replaced by the result of this command')
+    problems = ['it was ACCEPTED although `%s` had already been run on this dataset (a second run of a step must be '
+                'refused and change nothing); %s' % (step, what)]
+    bad, final = finish_pipeline(w, db, done)
+    if bad is not None:
+        problems.append('the workflow cannot be completed afterwards: %s' % bad)
+    elif final != dumps[len(STEPS)]:
+        problems.append('the completed workflow differs from the one without this attempt: tables %s'
+                        % diff_tables(final, dumps[len(STEPS)]))
+    n = coq.setdefault('natural-reported', {})
+    n[(w.tag, step, 'again')] = n.get((w.tag, step, 'again'), 0) + 1
+    out.count('natural-violation:%s' % step)
+    if n[(w.tag, step, 'again')] <= CK_REPORT_CAP:
+        out.violation('oracle', 'the repeated attempt `%s` on the dataset %s: %s%s'
+                      % (shown, state_name(state), '; '.join(problems),
+                         ' [further violations of this kind in this step are only counted: natural-violation:* in the '
+                         'evidence]' if n[(w.tag, step, 'again')] == CK_REPORT_CAP else ''), case=c)
+
+
+def fnum(x):
+    return repr(float(x))
+
+
+def repeat_variants(w, step):
+    """(flag, value): OTHER valid-looking arguments of a step - what a user types who runs the
+    step a second time to change a setting.  On a dataset that has the step they must be refused."""
+    rec = w.rec
+    sample = 'sample' in rec
+    grid = 1.0 if sample else float(rec['grid_mm'])
+    if step == 'classify':
+        s_, j_ = (8.0, 5.0) if sample else (float(rec['thr_s']), float(rec['thr_j']))
+        return [('-s', fnum(s_ * 2)), ('-s', fnum(s_ / 2)), ('-j', fnum(j_ * 2)), ('-j', fnum(j_ / 4)),
+                ('-s', '1e9'), ('-j', '1e-9')]
+    if step == 'set-zeta-grid':
+        return [('-d', fnum(grid * m)) for m in (2, 0.5, 5, 0.2, 3, 10, 0.1, 1.5, 0.3, 1000, -1, -2.5)]
+    if step == 'set-curvature':
+        k = 1.0 if sample else float(rec['curvature'])
+        return [(None, fnum(v)) for v in (k + 1, 2 * k + 0.5, 0.0 if k else 3.0, -k - 1, 1e9, 1e-9)]
+    return [('-r', fnum(grid * m)) for m in (0, 1, -1, 3, -7, 20)]
+
+
+def grid_levels(lo, hi, g):
+    import math
+    try:
+        return range(int(math.floor(lo / g)), int(math.ceil(hi / g)))
+    except (ValueError, OverflowError, ZeroDivisionError):
+        return range(0)
+
+
+def record_kind(lo, hi):
+    return 'all-negative' if hi < 0 else 'all-positive' if lo > 0 else 'crosses-zero'
+
+
+def check_repeats(w, named, dumps, traces, out, case, coq, rrng, share=0.25):
+    """After a step has succeeded: the SAME command with other valid-looking arguments (another
+    level step, curvature, thresholds, reference level), on the dataset right after the step, on
+    the completed dataset and (share) on every other dataset that has the step.  Judged by
+    one_natural: a refusal must leave the dump unchanged and the completed workflow canonical; an
+    acceptance is a violation (accepted_again).  For set-zeta-grid it is MEASURED whether the level
+    numbers of the two grids are disjoint (then no key of discrete_zeta stands in the way and only
+    the singleton zeta_grid refuses): records all below / all above zero; crossing zero they share
+    levels -1 and 0."""
+    lo, hi = level_bounds(named['0'][0])
+    kind = record_kind(lo, hi)
+    out.count('repeat:record:%s' % kind)
+    for i, step in enumerate(STEPS):
+        for state in sorted(named):
+            if step not in named[state][2]:
+                continue
+            main = state in (str(i + 1), str(len(STEPS)))
+            for flag, value in repeat_variants(w, step):
+                if not main and rrng.random() >= share:
+                    continue
+                out.count('repeat:%s' % step)
+                if step == 'set-zeta-grid':
+                    old = grid_levels(lo, hi, 1.0 if 'sample' in w.rec else float(w.rec['grid_mm']))
+                    new = grid_levels(lo, hi, float(value))
+                    disjoint = len(new) == 0 or len(old) == 0 or new[-1] < old[0] or old[-1] < new[0]
+                    out.count('repeat:set-zeta-grid:%s:%s' % ('new-grid-empty' if len(new) == 0 else 'level-sets-disjoint'
+                                                              if disjoint else 'level-sets-overlap', kind))
+                    if disjoint:
+                        out.nontriv(('repeat-disjoint', w.tag, state, value))
+                one_natural(w, named, dumps, traces, step, state, flag, value, out, case, coq,
+                            to_end=main or rrng.random() < 0.25)
+
+
+def shifted_record(rec, rng, want):
+    """The same record moved up or down as a whole (every level + the same multiple of 1/8 mm:
+    increments, hence classification, are unchanged) so that it lies all below zero, all above
+    zero (nearest level at least one span away from zero, so that grids whose steps differ by a
+    factor >= 3 have disjoint level numbers) or crosses zero."""
+    lo, hi = min(rec['zeta']), max(rec['zeta'])
+    span = hi - lo
+    if want == 'crosses-zero':
+        c = -(lo + span * (0.3 + 0.4 * rng.random()))
+    elif want == 'all-negative':
+        c = -hi - span * (1.0 + rng.random()) - 1.0
+    else:
+        c = -lo + span * (1.0 + rng.random()) + 1.0
+    c = round(c * 8) / 8.0
+    return dict(rec, zeta=[z + c for z in rec['zeta']])
+
+
 def state_name(state):
     if state.isdigit():
         j = int(state)
@@ -792,7 +926,8 @@ def state_name(state):
             'classification', 'CK': 'with classification and curvature but no level grid'}[state]
 
 
-def check_natural(w, states, dumps, traces, out, case, coq, rng, share=1.0, only=None):
+def check_natural(w, states, dumps, traces, out, case, coq, rng, share=1.0, only=None, rrng=None,
+                  repeats_only=False):
     """Attempts that fail by themselves because of their arguments or of what the dataset
     lacks, before and after the step has succeeded.  share: fraction of the (step, state,
     variant) triples away from the step's own pre-state that is run (the pre-state gets all)."""
@@ -801,6 +936,10 @@ def check_natural(w, states, dumps, traces, out, case, coq, rng, share=1.0, only
         for step, state, flag, value in only:
             if state in named:
                 one_natural(w, named, dumps, traces, step, state, flag, value, out, case, coq, True)
+        return
+    if rrng is not None:
+        check_repeats(w, named, dumps, traces, out, case, coq, rrng, share=share)
+    if repeats_only:
         return
     for i, step in enumerate(STEPS):
         variants = natural_variants(w, step)
@@ -910,11 +1049,14 @@ def open_checked(db):
         return 'the file cannot be read: %s: %s' % (type(e).__name__, e), None
 
 
-def check_commit_kills(w, states, dumps, traces, out, case, coq, rng, per_step=2, only=None, arng=None):
+def check_commit_kills(w, states, dumps, traces, out, case, coq, rng, per_step=2, only=None, arng=None,
+                       steps=None):
     """only: [(step, limit, other)] (replay).  arng: stream that decides which command touches the
-    file first after each kill (None: always the step itself)."""
+    file first after each kill (None: always the step itself).  steps: the steps whose files
+    states[i], states[i+1] exist (default all).  coq None: oracle only."""
     jobs, info = [], {}
-    for i, step in enumerate(STEPS):
+    for step in (steps or STEPS):
+        i = STEPS.index(step)
         ps, dirty, limits = commit_kill_limits(states[i], states[i + 1], rng, per_step)
         info[step] = (i, ps, dirty)
         if only is not None:
@@ -990,7 +1132,8 @@ def check_commit_kills(w, states, dumps, traces, out, case, coq, rng, per_step=2
             # with block) — that action never completed, so the trace stops before it
             tr = traces[step]
             pub = [k for k, (kd, _) in enumerate(tr.points) if kd in ('commit-before', 'exit-before')]
-            if rc != 0 and phase.startswith('db-page-write') and pub and coq_wanted(coq, step, tr.events, out):
+            if coq is not None and rc != 0 and phase.startswith('db-page-write') and pub \
+                    and coq_wanted(coq, step, tr.events, out):
                 att = events_before_point((tr.events, tr.points, index_points(tr)), pub[0])
                 try:
                     coq['txn'].append(('(%s, %s, None, %s)' % (cevs(tr.events), cevs(att), oc), c,
@@ -1029,6 +1172,200 @@ def fine_variant(w, out):
         shutil.rmtree(fw.dir, ignore_errors=True)
         return None
     return (fw,) + can
+
+
+# ------------------------------------------------------------------ large level grids (oracle only)
+
+# numbers of items at which software tends to cut its work into pieces
+ROUND = [1000, 1024, 4096, 8192, 10000, 16384, 20000, 30000, 32768, 50000, 65536, 100000]
+
+
+def large_points(points, rng, extra=4):
+    """Fault points of a long trace worth a run each (the trace has one point per row an
+    executemany pulls: tens of thousands).  Kept: every point that is not a row (execute calls,
+    commits, exit - wherever they occur), the rows whose number - counted within their own
+    executemany call AND over all executemany calls of the step - is a round number or next to
+    one, the first and last two rows of every call, and a few drawn ones, at least half of them
+    beyond row 10000 when there are that many."""
+    keep, rows, total = set(), [], 0
+    near = {r + d for r in ROUND for d in (-1, 0, 1)}
+    for k, (kind, detail) in enumerate(points):
+        if kind != 'row':
+            keep.add(k)
+            # the rows around a call boundary
+            keep.update(j for j in (k - 2, k - 1, k + 1, k + 2) if 0 <= j < len(points))
+            continue
+        j = int(detail)
+        if j in near or total in near:
+            keep.add(k)
+        rows.append(k)
+        total += 1
+    late = rows[10001:]
+    for n in range(extra):
+        pool = late if (late and n % 2 == 0) else rows
+        if pool:
+            keep.add(rng.choice(pool))
+    return sorted(keep), total
+
+
+def large_forms(tier, rng):
+    """(form, wanted number of levels): 'fine' = the record as generated on a level step so
+    small that the grid has that many levels; 'scaled' = the record with every level multiplied
+    by an integer (a record spanning tens of metres) on a 1 mm grid."""
+    odd = lambda lo: lo + rng.randrange(137, 2900)          # noqa: E731  (never a multiple of a block size)
+    if tier == 'quick':
+        return [('fine' if rng.random() < 0.7 else 'scaled', odd(10000))]
+    return [('fine', odd(20000)), ('scaled', odd(10000)), ('fine', odd(32768)), ('scaled', odd(65536))]
+
+
+def level_bounds(db):
+    con = sqlite3.connect(db)
+    try:
+        return con.execute('SELECT min(zeta_mm), max(zeta_mm) FROM water_level').fetchone()
+    finally:
+        con.close()
+
+
+def large_setup(w, states, form, want, pre):
+    """Work + pre-state file of the large-grid form of w's record.  pre: 0 = right after load,
+    1 = after classify (set-zeta-grid is independent of classify; 'scaled' always 0)."""
+    import math
+    rec = w.rec
+    if form == 'fine':
+        lo, hi = level_bounds(states[0])
+        grid = float('%.5g' % ((hi - lo) / want))
+        while math.ceil(hi / grid) - math.floor(lo / grid) <= want:
+            grid = float('%.5g' % (grid * 0.98))
+        lw = Work(dict(rec, grid_mm=grid), w.tag + 'large')
+        src = states[pre]
+        return lw, src, dict(form=form, grid=grid, pre=pre)
+    span = max(rec['zeta']) - min(rec['zeta'])
+    scale = int(math.ceil((want + 2) / span))
+    lw = Work(dict(rec, zeta=[z * scale for z in rec['zeta']], grid_mm=1.0), w.tag + 'large')
+    db, exc = load_record(lw)
+    if exc is not None:
+        return lw, None, dict(form=form, scale=scale)
+    return lw, db, dict(form=form, scale=scale)
+
+
+def check_large(w, states, out, case, rng, tier, forms=None, only=None):
+    """LARGE-GRID stage of set-zeta-grid, oracle only (nothing of it goes to Coq: a trace of
+    tens of thousands of statements is dominated by reading the literal; the model's protocol does
+    not depend on the number of rows).  The level grid gets more levels than the round numbers
+    software cuts its work at; (a) the shape of the fault-free trace, (b) faults at the points
+    `large_points` selects x {exception; SQLite interrupt at every third}, SIGKILLs beyond row
+    10000 and at the end, (b') kernel kills inside the commit with the limit in the LAST pages the
+    step writes (a step that committed in pieces has then published its first pieces).
+    only: (level, step, k, mode/spill/limit) of one reported case (replay)."""
+    step = 'set-zeta-grid'
+    for form, want in (forms if forms is not None else large_forms(tier, rng)):
+        pre = 0 if form == 'scaled' else rng.randrange(0, 2)
+        if only is not None and 'pre' in only['large']:
+            pre = only['large']['pre']
+        lw, src, how = large_setup(w, states, form, want, pre)
+        how['want'] = want
+        lcase = dict(case, large=how)
+        if src is None:
+            out.count('large-grid:%s:load-refused' % form)
+            shutil.rmtree(lw.dir, ignore_errors=True)
+            continue
+        post_file = os.path.join(lw.dir, 'L2.sqlite3')
+        shutil.copyfile(src, post_file)
+        tr, exc = T.run_cli(lw.argv(step, post_file))
+        if failed_cmd(tr, exc):
+            out.violation('corr', 'large-grid stage: `%s` failed on the %s form: %s' % (step, form, exc), case=lcase)
+            shutil.rmtree(lw.dir, ignore_errors=True)
+            continue
+        pre_dump, post_dump = D.dump(src), D.dump(post_file)
+        n = len(post_dump['discrete_zeta'])
+        out.count('large-grid:%s' % form)
+        for r in (10000, 20000, 32768, 65536):
+            if n > r:
+                out.count('large-grid:levels>%d' % r)
+        if n <= 10000:
+            out.violation('corr', 'large-grid stage: the grid has only %d levels (wanted > %d)' % (n, want), case=lcase)
+        lstates, ldumps, ltraces = {1: src, 2: post_file}, {1: pre_dump, 2: post_dump}, {step: tr}
+        out.evaluations += 1
+        # (a) shape, judged directly (no Coq case)
+        ev, sql = tr.events, tr.sql
+        nb, nc = sql.count('BEGIN'), sql.count('COMMIT')
+        if not shape_py(ev) or nb != 1 or nc != 1 or sql[-1] != 'COMMIT' or 'ROLLBACK' in sql or tr.connections != 1:
+            out.violation('oracle', '`%s` on a grid of %d levels (%s) is not ONE transaction committed last: events %s; '
+                          'SQL trace %d BEGIN, %d COMMIT at positions %s of %d statements, %d connections (on small '
+                          'grids the same command has the step shape)'
+                          % (' '.join(lw.argv(step, 'DB')), n, describe_large(how), summarize(ev), nb, nc,
+                             [i for i, s_ in enumerate(sql) if s_ == 'COMMIT'][:8], len(sql), tr.connections),
+                          case=dict(lcase, level='shape', step=step))
+        else:
+            out.nontriv(('large-shape', lw.tag, n))
+        # (b) faults
+        ks, nrows = large_points(tr.points, rng)
+        out.count('large-grid:fault-points-sampled', len(ks))
+        out.count('large-grid:fault-points-total', len(tr.points))
+        if only is not None and only['level'] == 'fault':
+            ks = [int(only['k'])] if int(only['k']) < len(tr.points) else []
+        seen = set()
+        v0 = len(out.violations)
+        if only is None or only['level'] == 'fault':
+            for n_, k in enumerate(ks):
+                modes = ['raise'] + (['interrupt'] if n_ % 3 == 0 else [])
+                if only is not None:
+                    modes = [only['mode']]
+                for mode in modes:
+                    seen.add(one_fault(lw, step, src, pre_dump, post_dump, tr.events, k, mode, out, lcase, None,
+                                       tr.points[k], note=' on a grid of %d levels (%s; row %d of %d over all '
+                                       'executemany calls)' % (n, describe_large(how), rows_before(tr.points, k),
+                                                               nrows)))
+                    if len(out.violations) > v0 + 2 * CK_REPORT_CAP:   # all are counted, the first ones listed
+                        out.count('large-grid:fault-violations-only-counted', len(out.violations) - v0 - 2 * CK_REPORT_CAP)
+                        del out.violations[v0 + 2 * CK_REPORT_CAP:]
+                if tr.points[k][0] == 'row' and rows_before(tr.points, k) >= 10000:
+                    out.count('large-grid:fault-beyond-row-10000')
+            if only is None and not {'OPre', 'OPost'} <= seen:
+                out.violation('corr', 'large-grid fault sample of `%s` never produced both outcomes (%s)'
+                              % (step, sorted(seen)), case=lcase)
+        # SIGKILL: beyond row 10000 (cache / spilling cache), and after the publishing action
+        rowpts = [k for k in range(len(tr.points)) if tr.points[k][0] == 'row']
+        late = rowpts[10001:] or rowpts
+        if only is None:
+            jobs = [(step, src, rng.choice(late), False, None, ''), (step, src, rng.choice(late), True, None, ''),
+                    (step, src, len(tr.points) - 1, False, None, '')]
+            if tier != 'quick':
+                jobs += [(step, src, rng.choice(rowpts), True, None, ''), (step, src, rowpts[min(10000, len(rowpts) - 1)],
+                                                                          True, None, '')]
+        elif only['level'] == 'kill':
+            jobs = [(step, src, int(only['k']), bool(only.get('spill')), None, '')]
+        else:
+            jobs = []
+        jobs = [(s_, f, k, sp, tr.points[k], o) for s_, f, k, sp, _, o in jobs if k < len(tr.points)]
+        if jobs:
+            check_kills(lw, jobs, ldumps, {}, out, lcase, None)
+        # (b') kernel kills inside the commit, limit in the last pages the step writes
+        if only is None or only['level'] == 'commit-kill':
+            ps, dirty, _ = commit_kill_limits(src, post_file, rng, 1)
+            inner = [d for d in dirty if d > 1]
+            if only is not None:
+                limits = [int(only['limit'])]
+            elif inner:
+                limits = sorted({(inner[-1] - 1) * ps, (inner[-1] - 1) * ps + ps // 2 - 8,
+                                 (rng.choice(inner[len(inner) // 2:]) - 1) * ps})
+            else:
+                limits = []
+            if limits:
+                check_commit_kills(lw, lstates, ldumps, ltraces, out, lcase, None, rng,
+                                   only=[(step, l, '') for l in limits], steps=[step])
+        shutil.rmtree(lw.dir, ignore_errors=True)
+
+
+def rows_before(points, k):
+    return sum(1 for kind, _ in points[:k] if kind == 'row')
+
+
+def describe_large(how):
+    if how['form'] == 'fine':
+        return 'the record as generated, level step %r mm, dataset %s' % (how['grid'], 'after load' if how['pre'] == 0
+                                                                         else 'after classify')
+    return 'every level of the record multiplied by %d, level step 1 mm, dataset after load' % how['scale']
 
 
 # ------------------------------------------------------------------ (c) histories
@@ -1106,7 +1443,40 @@ def argument_attempt(w, db, nrng, out, case):
                       case=dict(case, attempt=[step, flag, value]))
 
 
-def check_orders(w, states, dumps, traces, out, case, coq, rng, nfail=2, nrng=None):
+def repeat_attempt(w, db, rrng, done, out, case):
+    """In the middle of a history: a step that has been run is attempted AGAIN with other
+    valid-looking arguments.  It must be refused and leave no trace (an accepted one is reported
+    and taken out of the history)."""
+    if not done:
+        return
+    step = rrng.choice(sorted(done))
+    flag, value = rrng.choice(repeat_variants(w, step))
+    copy = db + '.before'
+    shutil.copyfile(db, copy)
+    before = D.dump(db)
+    argv = with_arg(w.argv(step, db), flag, value)
+    tr, exc = T.run_cli(argv, fast=True)
+    after = D.dump(db)
+    out.evaluations += 1
+    shown = ' '.join(['spowtd'] + [a if a != db else 'DB' for a in argv])
+    c = dict(case, attempt=[step, flag, value])
+    if not failed_cmd(tr, exc):
+        out.count('history-attempt:repeat:ACCEPTED')
+        out.violation('oracle', 'in the middle of a history (steps run so far: %s) the repeated attempt `%s` was ACCEPTED '
+                      'although `%s` had already been run (a second run of a step must be refused and change nothing); '
+                      '%s' % (list(done), shown, step, 'tables %s changed' % diff_tables(after, before)
+                              if after != before else 'the dataset is unchanged'), case=c)
+        shutil.copyfile(copy, db)
+    else:
+        out.count('history-attempt:repeat:%s' % (type(exc).__name__ if exc is not None else 'status'))
+        if after != before:
+            out.violation('oracle', 'the refused repeated attempt `%s` (%s) in the middle of a history changed the dataset: '
+                          'tables %s' % (shown, type(exc).__name__ if exc is not None else 'status %s' % tr.rc,
+                                         diff_tables(after, before)), case=c)
+    os.remove(copy)
+
+
+def check_orders(w, states, dumps, traces, out, case, coq, rng, nfail=2, nrng=None, rrng=None):
     for group, start, want in ((SETUP, 0, 3), (CURVES, 3, 5)):
         finals = {}
         for order in itertools.permutations(group):
@@ -1130,6 +1500,8 @@ def check_orders(w, states, dumps, traces, out, case, coq, rng, nfail=2, nrng=No
                     ok = False
                     break
                 done.append(step)
+                if rrng is not None and rrng.random() < 0.5:
+                    repeat_attempt(w, db, rrng, done, out, c)
             if not ok:
                 continue
             for _ in range(rng.randrange(0, nfail + 1)):
@@ -1167,7 +1539,7 @@ def run_coq(coq, out):
 
 
 def check_dataset(rec, tag, out, rng, tier, coq, limit=None, kills=8, kill_all=False, orders=True,
-                  ckills=2, ckills_fine=None, fine=False, seed=0, natural=0.15):
+                  ckills=2, ckills_fine=None, fine=False, seed=0, natural=0.15, large=None, shifted=None):
     """ckills / ckills_fine: kills inside the commit per step on the dataset as it is / on its
     fine-grid variant (None: every limit; 0: none)."""
     w = Work(rec, tag)
@@ -1184,7 +1556,28 @@ def check_dataset(rec, tag, out, rng, tier, coq, limit=None, kills=8, kill_all=F
     check_faults(w, states, dumps, traces, out, case, coq, rng, limit=limit, kills=kills, kill_all=kill_all,
                  arng=arng)
     if natural:
-        check_natural(w, states, dumps, traces, out, case, coq, C.rng_for(seed, PROP, 'natural', tag), share=natural)
+        check_natural(w, states, dumps, traces, out, case, coq, C.rng_for(seed, PROP, 'natural', tag), share=natural,
+                      rrng=C.rng_for(seed, PROP, 'repeat', tag))
+    for n_, want in enumerate(shifted or []):
+        # repeated attempts on the same record moved as a whole (below / above / across zero)
+        srng = C.rng_for(seed, PROP, 'shifted', tag, n_)
+        lo, hi = level_bounds(states[0])
+        kinds = [k for k in ('crosses-zero', 'all-negative', 'all-positive') if k != record_kind(lo, hi)]
+        if want == 'opposite':
+            want = 'crosses-zero' if 'crosses-zero' in kinds else srng.choice(kinds)
+        elif want == 'other':
+            want = kinds[-1]
+        elif want == 'far':     # off zero by more than its own span, whatever the record was
+            want = srng.choice(['all-negative', 'all-positive'])
+        sw = Work(shifted_record(rec, srng, want), '%s-%s' % (tag, want))
+        scan = canonical(sw, out, None)
+        if scan is None:
+            out.violation('corr', 'the record of %s moved to %s does not carry the whole workflow' % (tag, want),
+                          case=dict(rec=sw.rec))
+        else:
+            check_natural(sw, scan[0], scan[1], scan[2], out, dict(rec=sw.rec), coq, srng, share=natural or 0.25,
+                          rrng=srng, repeats_only=True)
+        shutil.rmtree(sw.dir, ignore_errors=True)
     crng = C.rng_for(seed, PROP, 'commit-kill', tag)  # own stream: the older stages keep their draws
     if ckills != 0:
         check_commit_kills(w, states, dumps, traces, out, case, coq, crng, per_step=ckills, arng=arng)
@@ -1197,7 +1590,10 @@ def check_dataset(rec, tag, out, rng, tier, coq, limit=None, kills=8, kill_all=F
             shutil.rmtree(fw.dir, ignore_errors=True)
     if orders:
         check_orders(w, states, dumps, traces, out, case, coq, rng,
-                     nrng=C.rng_for(seed, PROP, 'natural-history', tag) if natural else None)
+                     nrng=C.rng_for(seed, PROP, 'natural-history', tag) if natural else None,
+                     rrng=C.rng_for(seed, PROP, 'repeat-history', tag) if natural else None)
+    if large:
+        check_large(w, states, out, case, C.rng_for(seed, PROP, 'large', tag), large)
     shutil.rmtree(w.dir, ignore_errors=True)
 
 
@@ -1218,11 +1614,21 @@ def run(ctx, out):
         # 2 per step on the others (even ones on the fine grid)
         check_dataset(rec, 'ds%d' % i, out, rng, tier, coq, kills=12 if tier == 'quick' else 20, kill_all=full,
                       seed=seed, fine=full or i % 2 == 0, natural=1.0 if full else 0.25,
-                      ckills=None if full else 0 if i % 2 == 0 else 2, ckills_fine=None if full else 2)
+                      ckills=None if full else 0 if i % 2 == 0 else 2, ckills_fine=None if full else 2,
+                      large=tier if i in (1, 4) else None,
+                      shifted=['opposite', 'other'] if full else ['opposite'] if i % 2 == 0 else ['far'])
     if tier == 'thorough':
         check_dataset(dict(sample=1), 'sample1', out, rng, tier, coq, limit=10, kills=5, orders=False,
                       seed=seed, ckills=2, natural=0)   # (b'') not on the field sample: seconds per command
     run_coq(coq, out)
+    if not any(k.startswith('repeat:set-zeta-grid:level-sets-disjoint:all-') for k in out.dist):
+        out.violation('corr', 'no repeated set-zeta-grid attempt had level numbers disjoint from those of the grid '
+                      'already set (records off zero): generator miss', case=None)
+    if not any(k.startswith('repeat:set-zeta-grid:level-sets-overlap:crosses-zero') for k in out.dist):
+        out.violation('corr', 'no repeated set-zeta-grid attempt on a record crossing zero: generator miss', case=None)
+    if not out.dist.get('large-grid:levels>%d' % (10000 if tier == 'quick' else 20000)):
+        out.violation('corr', 'no level grid beyond %d levels was exercised: generator miss'
+                      % (10000 if tier == 'quick' else 20000), case=None)
     out.rule = ('Datasets: synthetic saw-tooth records (storms with fast rises, dry recessions, overlapping in '
                 'level) on which load..recession all succeed%s. Every fault point of every step x {exception, '
                 'SQLite interrupt} in-process; SIGKILL of a CLI subprocess at sampled points (all points for 2 '
@@ -1240,7 +1646,22 @@ def run(ctx, out):
                 'negative, denormal, huge, non-numeric, empty}, reference levels off the grid / outside the curve) '
                 'before the step, after it and (sampled) in every other state including ones lacking an earlier '
                 'step: natural:failed:<step>:<todo|done>:<exception>, natural:accepted:* = accepted by the command, '
-                'not a failed attempt; all orders of the '
+                'not a failed attempt; REPEATED attempts: on every dataset that has a step, the same command with OTHER '
+                'valid-looking arguments (level step x{2,.5,5,.2,3,10,.1,1.5,.3,1000,-1,-2.5}, other curvature, thresholds, '
+                'reference levels on the grid) - right after the step, on the completed dataset, sampled elsewhere, and '
+                'inside the histories - must be refused, change nothing and leave the completed workflow canonical (an '
+                'acceptance is a violation, reported with whether the dataset is unchanged / replaced / a blend); run on '
+                'the record as generated and on the same record moved as a whole across zero resp. off zero by more than '
+                'its span, with the MEASURED relation of the two grids\' level numbers (repeat:set-zeta-grid:level-sets-'
+                'disjoint|overlap|new-grid-empty:<all-negative|all-positive|crosses-zero>); LARGE-GRID stage of '
+                'set-zeta-grid, ORACLE ONLY (nothing of it is sent to Coq: reading a literal of >10^4 statements would '
+                'dominate, and the model\'s protocol does not depend on the number of rows): one dataset per quick run '
+                'with > 10000 levels (thorough: two datasets x {> 20000 fine step, > 10000 and > 65536 as a record '
+                'spanning tens of metres at 1 mm, > 32768 fine step}; sizes never multiples of 1000/1024), shape of the '
+                'trace, exception / interrupt at every non-row point and at the rows numbered 1000, 1024, 4096, 8192, '
+                '10000, 16384, 20000, 32768, 65536, ... +-1 (within their executemany call and over all calls), first / '
+                'last rows and drawn rows beyond 10000, SIGKILLs beyond row 10000 and at the end, kernel kills inside the '
+                'commit with the limit in the last pages written (large-grid:*); all orders of the '
                 'independent steps with failed attempts interleaved. Non-trivial: a fault that actually fired '
                 'with work to undo and left the previous content (distinct by dataset, step, point, kind), a '
                 'kill whose hot journal was replayed (for kills inside the commit: the dataset file had changed, '
@@ -1269,6 +1690,16 @@ def replay(case, out):
     coq = dict(txn=[], shape=[], tables=[])
     rec = case['rec']
     level = case.get('level')
+    if 'large' in case:
+        w = Work(rec, 'replay')
+        can = canonical(w, out, case)
+        if can is None:
+            out.violation('corr', 'replay: the dataset does not carry the whole workflow', case=case)
+            return
+        check_large(w, can[0], out, dict(rec=rec), rng, 'quick', forms=[(case['large']['form'], case['large']['want'])],
+                    only=case)
+        shutil.rmtree(w.dir, ignore_errors=True)
+        return
     if level in ('commit-kill', 'natural') or (level == 'kill' and 'other' in case):
         # exactly the reported attempt (same fault point / size limit / arguments, same command
         # touching the file afterwards)
